@@ -201,6 +201,15 @@ theorem unparRun_restores (n : NodeRef) (do1 do2 : Bool) (body1 body2 : Reg → 
             ⟨(body2 reg1).reg, (body2 reg1).exc, reg1 :: (body1 reg1).trace ++ (body2 reg1).trace⟩ b1 hx
           exact ⟨u1, by rw [u2]; exact b2⟩
 
+theorem rootReplaceRun_restores (n : NodeRef) (g : Bool) (body : Reg → Res) (h : Restores body) :
+    Restores (rootReplaceRun n g body) := by
+  intro reg hr
+  unfold rootReplaceRun
+  cases g
+  · simp only [Bool.false_eq_true, if_false]
+    exact withRun_restores n false false body h reg hr
+  · simp
+
 theorem putRun_restores (n : NodeRef) (raw : RawOpt) (force guardFails : Bool) (handler rawBody : Reg → Res)
     (h1 : Restores handler) (h2 : Restores rawBody) : Restores (putRun n raw force guardFails handler rawBody) := by
   intro reg h
